@@ -16,7 +16,7 @@ var (
 	VerifCtlSig     DigitallySigned
 )
 
-//verif:stub github.com/google/certificate-transparency-go/tls.VerifySignature dir=. files=signatures.go as=tls.VerifStubVerifySignature
+//verif:stub github.com/google/certificate-transparency-go/tls.VerifySignature dir=. files=* as=tls.VerifStubVerifySignature
 func VerifStubVerifySignature(pubKey crypto.PublicKey, data []byte, sig DigitallySigned) error {
 	VerifCtlCalls++
 	VerifCtlKey, VerifCtlData, VerifCtlSig = pubKey, data, sig
